@@ -338,9 +338,9 @@ macro_rules! prep_q2 {
     ($q:ident, $T:ident, $Dq:ty, $qx:ident, $qy:ident, $body:expr) => {{
         let ysh: &Vec<usize> = $q.ys_shape.as_ref().unwrap_or(&$q.shape);
         let mut bkx = alloc_backing::<$T>(&$q.shape, $q.lay, $T::from64(0.0));
-        let mut bky = alloc_backing::<$T>(ysh, Lay::C, $T::from64(0.0));
+        let mut bky = alloc_backing::<$T>(ysh, $q.ys_lay, $T::from64(0.0));
         let mut wx = window(bkx.view_mut(), &$q.shape, $q.lay);
-        let mut wy = window(bky.view_mut(), ysh, Lay::C);
+        let mut wy = window(bky.view_mut(), ysh, $q.ys_lay);
         if !fill_window(&mut wx, &$q.xs) || !fill_window(&mut wy, &$q.ys) {
             Outcome::skip("query shape/values")
         } else {
